@@ -542,6 +542,32 @@ func (ev *evalCtx) call(e *SExpr) Val {
 		v := ev.eval(e.Args[0])
 		ev.heap = save
 		return v
+	case "objinv":
+		// objinv(x): x != nil and the declared object invariants of x's type hold for x
+		x := argv(0)
+		el := derefType(x.Typ)
+		if el == nil {
+			return ev.fail("objinv of non-pointer")
+		}
+		parts := []string{"(distinct " + x.T + " 0)"}
+		for _, c := range ex.specs.ObjInvs[typeKey(el)] {
+			sub := &evalCtx{ex: ex, st: st, fr: ev.fr, extra: map[string]Val{"self": x}, heap: ev.heap, cnt: ev.cnt}
+			v := sub.eval(c.Expr)
+			ev.err = append(ev.err, sub.err...)
+			parts = append(parts, v.T)
+		}
+		return ghost(smtAnd(parts...), "Bool")
+	case "lastret":
+		// lastret("callee substring"): the value returned by the latest matching call on this path
+		if len(e.Args) != 1 || e.Args[0].Op != "str" {
+			return ev.fail("lastret(\"callee\")")
+		}
+		for name, rv := range ev.fr.callRets {
+			if strings.Contains(name, e.Args[0].Str) {
+				return rv
+			}
+		}
+		return ev.fail("lastret: no call to %s on this path", e.Args[0].Str)
 	case "aftercall":
 		// aftercall("callee substring", e): e evaluated in the heap right after the latest matching call
 		// on this path; if there was none, in the function's entry heap
